@@ -240,6 +240,7 @@ def _run_harness(hn, tier, seed, findings):
         out["obligations"].append(agg)
         if agg["result"] == "undecided":
             out["undecided"].append({"obligation": agg["id"], "reason": agg.get("reason", "")})
+    out.pop("_replay_cache", None)
     out["wall_s"] = round(time.time() - t0, 3)
     return out
 
@@ -248,23 +249,38 @@ def _candidate_confirmed(hn, h, ob, agg, out, findings):
     """An obligation neither solver decided is not a violation.  When quantifier instantiation saturated, the solver state is a candidate
     counter-model; it is replayed on the real code (the harness' native replay of the clause).  Only a failure observed natively turns the
     line into a VIOLATION (with the native failing input in the replay file); otherwise the obligation stays undecided."""
-    if hn.replay is None or getattr(ob, "candidate", None) is None:
+    if hn.replay is None:
         return False
     full_id = f"{hn.name}:{ob.id}"
     if any(f.get("property") == hn.pid and f.get("obligation") == full_id and not f.get("fixed") for f in findings):
         return False
-    ob.model = ob.candidate
-    values = model_values_safe(ob, h.inputs)
+    cand = getattr(ob, "candidate", None)
+    values = {}
+    if cand is not None:
+        ob.model = cand
+        values = model_values_safe(ob, h.inputs)
+    # without a candidate (the solver ran out of time rather than out of instances) the harness' native check of the clause still runs, on its
+    # own inputs: one run per obligation id prefix is enough
+    cache = out.setdefault("_replay_cache", {})
+    key = (ob.id if values else None, tuple(sorted((k, str(v)) for k, v in values.items())))
     try:
-        rr = hn.replay(dict(values), ob.id)
-    except Exception:
-        return False
+        rr = cache[key] if key in cache else hn.replay(dict(values), ob.id)
+        cache[key] = rr
+    except Exception as e:
+        # the library itself raising while the clause is exercised natively is a failure of that run; an exception of the replay code is not
+        tb = traceback.extract_tb(e.__traceback__)
+        src = os.path.realpath(os.path.join(REPO, "src"))
+        if not any(os.path.realpath(fr.filename).startswith(src) and "/tests/" not in fr.filename for fr in tb):
+            return False
+        rr = {"failed": True, "raised_by_the_library": repr(e)[:300], "where": [f"{os.path.relpath(fr.filename, src)}:{fr.lineno}" for fr in tb if os.path.realpath(fr.filename).startswith(src)][-2:]}
+        cache[key] = rr
     if not rr.get("failed"):
         agg["candidate_replayed"] = "native replay of the candidate counter-model did not fail"
         return False
     agg["result"] = "failed"
     agg["model"] = values
-    agg["note"] = "solver undecided (quantifier instantiation incomplete); candidate counter-model confirmed by a failing native replay on the real code"
+    agg["note"] = ("solver undecided (quantifier instantiation incomplete); candidate counter-model confirmed by a failing native replay on the real code" if cand is not None
+                   else "solver undecided (time limit); the native replay of this clause fails on the real code")
     out["violations"].append({"property": hn.pid, "obligation": full_id, "inputs": values, "solver_model": str(ob.model)[:4000],
                               "function": ob.function, "lineno": ob.lineno, "detail": ob.detail + " | " + agg["note"], "kind": ob.kind, "replayed": True, "observed": rr})
     return True
